@@ -349,6 +349,28 @@ def register(cat, simple, binary, with_scalar, _perm, _dims_subset, gen_ttm, run
     with_scalar("TT.mul_scalar", "TT", lambda a, s: a * s)
     with_scalar("TT.rmul_scalar", "TT", lambda a, s: s * a)
     op("TT.permute", "TT", lambda c, r: {"operands": [r], "perm": _perm(c.g, c.obj(r).ndims, identity=c.g.random() < 0.4)}, lambda eng, ops, st: ops[0].permute(np.array(st["perm"])), weight=1.5)
+    # ---- Tucker tensors whose factor matrices are scipy COO matrices (documented as accepted by the constructor)
+    def gen_TT_sparse_factors(c, r):
+        core = c.obj(r)
+        if core.ndims < 2:
+            return None
+        ids = []
+        for s in core.shape:
+            rows = c.g.randint(2, 3)
+            a = rand_array(c.g, (rows, s))
+            a[np.abs(a) < 0.4] = 0.0
+            if not a.any():
+                a[0, 0] = 1.5
+            ids.append(c.fresh_coo(a))
+        return {"operands": [r] + ids, "copy": c.g.choice([True, True, None])}
+
+    def run_TT_sparse_factors(eng, ops, st):
+        if st["copy"] is None:
+            return ttb.ttensor(ops[0], list(ops[1:]))
+        return ttb.ttensor(ops[0], list(ops[1:]), copy=st["copy"])
+
+    op("TT.new_from_sparse_factors", "T", gen_TT_sparse_factors, run_TT_sparse_factors, weight=0.5)
+
     op("TT.ttv", "TT", gen_K_ttv, run_ttv, weight=1.0)
     op("TT.ttm", "TT", gen_ttm, lambda eng, ops, st: ops[0].ttm(ops[1], st["dim"], transpose=st["transpose"]), weight=1.0)
     op("TT.mttkrp", "TT", gen_mttkrp, run_mttkrp, weight=0.6)
@@ -558,6 +580,12 @@ def register(cat, simple, binary, with_scalar, _perm, _dims_subset, gen_ttm, run
             st["guess_operands"] = [1]
         if c.heap.kinds[r] == "T" and c.g.random() < 0.3:
             st["solver"] = "SGD"
+        if c.heap.kinds[r] == "T" and st["solver"] == "LBFGSB" and c.g.random() < 0.4:
+            # missing-data mask (dense data, L-BFGS-B only): zeros mark the entries to ignore
+            mk = (rand_array(c.g, sh) > -0.3).astype(float)
+            mk.flat[c.g.randrange(mk.size)] = 0.0
+            st["operands"] = list(st["operands"]) + [c.fresh(np.asfortranarray(mk))]
+            st["mask"] = len(st["operands"]) - 1
         return st
 
     def run_gcp_opt(eng, ops, st):
@@ -569,6 +597,8 @@ def register(cat, simple, binary, with_scalar, _perm, _dims_subset, gen_ttm, run
             opt = LBFGSB(maxiter=2, iprint=-1)
         else:
             opt = SGD(max_iters=1, epoch_iters=1, printitn=0)
+        if st.get("mask") is not None:
+            return ttb.gcp_opt(ops[0], st["rank"], Objectives.GAUSSIAN, opt, init=init, mask=ttb.tensor(ops[st["mask"]]), printitn=0)
         return ttb.gcp_opt(ops[0], st["rank"], Objectives.GAUSSIAN, opt, init=init, printitn=0)
 
     op("gcp_opt", ("T", "S"), gen_gcp_opt, run_gcp_opt, weight=1.5, known_mutates="gcp_opt_normalizes_init")
